@@ -47,6 +47,7 @@ type Cfg struct {
 	PathChains       bool // /a0 -> /a1 -> /p0: chains of path item references inside the root document
 	CallbackPathRefs bool // a callback's path item may be a reference to a path of the same document
 	AliasChains      bool // with NoChains: a root component may be a bare reference to an object component of another document
+	PercentSpellings bool // local references may spell a character of their fragment percent-encoded
 	NullEntries      bool // a null entry in encoding maps, sorted before the entry with references (the only map whose null entries stay nil after parsing)
 }
 
@@ -252,6 +253,11 @@ func (g *gen) ref(kind, file string, depth int, noSelf bool) M {
 	case "same-doc":
 		n := g.ensureComponent(file, kind, depth)
 		g.feat["form:same-doc"]++
+		if g.cfg.PercentSpellings && g.chance(4, "pctspell") {
+			// a fragment is a URI fragment: %4E1 spells N1 (RFC 6901, section 6)
+			g.feat["form:same-doc-percent-encoded"]++
+			return M{"$ref": "#/components/" + Section[kind] + "/" + fmt.Sprintf("%%%02X", n[0]) + n[1:]}
+		}
 		return M{"$ref": "#/components/" + Section[kind] + "/" + n}
 	case "x-area":
 		// a schema kept in an extension area of another document (reachable only as raw data), which
@@ -565,6 +571,9 @@ func (g *gen) objectN(kind, file string, depth int) M {
 			key := "/cb-" + o["x-vid"].(string)
 			g.doc(file)["paths"].(M)[key] = g.objectN("pathItem", file, depth-1)
 			o["{$request.body#/u}"] = M{"$ref": "#/paths/" + esc(key)}
+			if g.cfg.PercentSpellings && g.chance(3, "pctspellpath") {
+				o["{$request.body#/u}"] = M{"$ref": "#/paths/" + strings.Replace(esc(key), "-", "%2D", 1)}
+			}
 			g.feat["form:callback-pathitem-local"]++
 		} else {
 			o["{$request.body#/u}"] = g.objectN("pathItem", file, depth-1)
